@@ -53,6 +53,12 @@ fn edge_lengths_large() -> Vec<u32> {
 
 fn edge_lengths_big() -> Vec<u32> {
     let mut v = Vec::new();
+    // powers of two up to 64 KiB (chunk multiples of the 4 KiB value buffer)
+    for k in 13..=16u32 {
+        for d in [-2i32, -1, 0, 1] {
+            v.push(((1i32 << k) + d) as u32);
+        }
+    }
     for base in [131072u32, 262144, 1048576] {
         for d in [-5i32, -4, -3, -2, -1, 0, 1, 2] {
             v.push((base as i32 + d) as u32);
@@ -102,6 +108,22 @@ pub fn val_strategy(p: ValProfile) -> BoxedStrategy<Val> {
     (val_len_strategy(p), 0u32..4)
         .prop_map(|(len, seed)| Val::P { len, seed })
         .boxed()
+}
+
+/// values for the *_string calls: text with multi-byte characters and stray bytes; lengths up
+/// to beyond 8 MiB (rarely)
+pub fn text_val_strategy(big: bool) -> BoxedStrategy<Val> {
+    let mut lens: Vec<u32> = vec![0, 1, 2, 3, 4, 5, 7, 8, 9, 15, 16, 17, 100, 1000, 4095, 4096, 4097, 65535, 65536, 65537];
+    let huge: Vec<u32> = vec![1 << 20, (1 << 20) + 1, (4 << 20) - 1, 4 << 20, (4 << 20) + 1, (4 << 20) + 2, 6 << 20, (8 << 20) + 3, (16 << 20) - 7];
+    if big {
+        lens.extend(huge);
+    }
+    prop_oneof![
+        6 => (0u32..300, 0u32..16).prop_map(|(len, seed)| Val::U { len, seed }),
+        2 => (proptest::sample::select(lens), 0u32..16).prop_map(|(len, seed)| Val::U { len, seed }),
+        2 => val_strategy(ValProfile::Small),
+    ]
+    .boxed()
 }
 
 /// integers biased to bit-width / encoding-length boundaries
@@ -461,8 +483,8 @@ pub struct OpsCfg {
     pub n_maps: usize,
 }
 
-fn kidx(n: usize) -> BoxedStrategy<u16> {
-    (0..n.max(1) as u16).boxed()
+fn kidx(n: usize) -> BoxedStrategy<u32> {
+    (0..n.max(1) as u32).boxed()
 }
 
 pub fn op_strategy(cfg: &OpsCfg, n_keys: usize, default_params: Params) -> BoxedStrategy<Op> {
@@ -471,7 +493,13 @@ pub fn op_strategy(cfg: &OpsCfg, n_keys: usize, default_params: Params) -> Boxed
     let mut alts: Vec<(u32, BoxedStrategy<Op>)> = Vec::new();
     let k = || kidx(n_keys);
     if w.put > 0 {
-        alts.push((w.put, (k(), vs.clone()).prop_map(|(k, v)| Op::Put { k, v }).boxed()));
+        // where the *_string readers are in play, byte values are sometimes (damaged) UTF-8 text
+        let pv: BoxedStrategy<Val> = if w.strs > 0 {
+            prop_oneof![4 => vs.clone(), 1 => text_val_strategy(cfg.val == ValProfile::Big)].boxed()
+        } else {
+            vs.clone()
+        };
+        alts.push((w.put, (k(), pv).prop_map(|(k, v)| Op::Put { k, v }).boxed()));
     }
     if w.get > 0 {
         alts.push((w.get, k().prop_map(|k| Op::Get { k }).boxed()));
@@ -492,7 +520,7 @@ pub fn op_strategy(cfg: &OpsCfg, n_keys: usize, default_params: Params) -> Boxed
         alts.push((
             w.strs,
             prop_oneof![
-                (k(), vs.clone()).prop_map(|(k, v)| Op::PutStr { k, v }),
+                (k(), text_val_strategy(cfg.val == ValProfile::Big)).prop_map(|(k, v)| Op::PutStr { k, v }),
                 k().prop_map(|k| Op::GetStr { k }),
                 k().prop_map(|k| Op::DelStr { k }),
             ]
@@ -501,8 +529,38 @@ pub fn op_strategy(cfg: &OpsCfg, n_keys: usize, default_params: Params) -> Boxed
     }
     if w.bulk > 0 {
         let mb = cfg.max_batch.max(1);
-        let ks = || vec(k(), 0..=mb);
-        let kvs = || vec((k(), vs.clone()), 0..=mb);
+        // batch sizes: mostly small, sometimes up to max_batch, rarely (max_batch >= 200) thousands
+        let size = move || -> BoxedStrategy<usize> {
+            if mb >= 200 {
+                prop_oneof![
+                    12 => 0usize..=24,
+                    6 => 0usize..=mb,
+                    1 => 4000usize..=9000,
+                ]
+                .boxed()
+            } else {
+                (0usize..=mb).boxed()
+            }
+        };
+        let kk = k();
+        let kk2 = k();
+        let vs2 = vs.clone();
+        let ks = move || {
+            let kk = kk.clone();
+            size().prop_flat_map(move |n| vec(kk.clone(), n..=n))
+        };
+        let kvs = move || {
+            let kk2 = kk2.clone();
+            let vs2 = vs2.clone();
+            size().prop_flat_map(move |n| vec((kk2.clone(), vs2.clone()), n..=n))
+        };
+        let kk3 = k();
+        let ts = text_val_strategy(false);
+        let kvs_text = move || {
+            let kk3 = kk3.clone();
+            let ts = ts.clone();
+            size().prop_flat_map(move |n| vec((kk3.clone(), ts.clone()), n..=n))
+        };
         alts.push((
             w.bulk,
             prop_oneof![
@@ -511,7 +569,7 @@ pub fn op_strategy(cfg: &OpsCfg, n_keys: usize, default_params: Params) -> Boxed
                 3 => ks().prop_map(|ks| Op::BulkDel { ks }),
                 1 => ks().prop_map(|ks| Op::BulkDelStr { ks }),
                 3 => kvs().prop_map(|kvs| Op::BulkPut { kvs }),
-                2 => kvs().prop_map(|kvs| Op::BulkPutStr { kvs }),
+                2 => kvs_text().prop_map(|kvs| Op::BulkPutStr { kvs }),
                 3 => kvs().prop_map(|kvs| Op::PutFromIter { kvs }),
             ]
             .boxed(),
@@ -541,7 +599,7 @@ pub fn op_strategy(cfg: &OpsCfg, n_keys: usize, default_params: Params) -> Boxed
         alts.push((w.dbsync, prop_oneof![Just(Op::DbSyncData), Just(Op::DbSyncAll)].boxed()));
     }
     if w.handles > 0 {
-        let nm = cfg.n_maps.max(1) as u8;
+        let nm = cfg.n_maps.max(1) as u16;
         alts.push((
             w.handles,
             prop_oneof![
@@ -595,6 +653,25 @@ pub struct HistCfg {
     pub obs: Obs,
     /// probability (percent) of bucket targeting
     pub target_pct: u32,
+    /// ops prepended to the generated history (with their own filler keys) that bring the files
+    /// into a rarely reached region
+    pub prelude: Prelude,
+    /// three phases (insert-heavy, delete-heavy, mixed) instead of one stationary mix
+    pub phases: bool,
+    /// add keys with particular byte patterns (all 0x00, all 0xFF, prefixes of each other)
+    pub special_keys: bool,
+    /// use the default table (16 Mi buckets, 134 MB sparse table file)
+    pub default_table: bool,
+}
+
+#[derive(Clone, Copy, Debug, PartialEq, Eq)]
+pub enum Prelude {
+    None,
+    /// filler values (<= 16 MiB each) until the value file holds `val_bytes`, filler keys of
+    /// 65000 bytes until the key file holds `key_bytes`
+    Inflate { val_bytes: u64, key_bytes: u64 },
+    /// n distinct small entries
+    ManyEntries(u32),
 }
 
 /// turn a configuration into a "dense chains" one: hundreds of keys in a table of 1..4 buckets
@@ -612,6 +689,87 @@ pub fn make_dense(cfg: &mut HistCfg, thorough: bool) {
     cfg.target_pct = 0;
 }
 
+fn special_key_set(kt: Kt) -> Vec<Key> {
+    let mut v = Vec::new();
+    if !matches!(kt, Kt::Bytes | Kt::String) {
+        return v;
+    }
+    for n in [1usize, 2, 7, 8, 9, 16, 17] {
+        v.push(Key::B(vec![0u8; n]));
+        if kt == Kt::Bytes {
+            v.push(Key::B(vec![0xFFu8; n]));
+        }
+    }
+    // prefixes of each other, trailing NUL
+    let base = b"prefix-key-0123456789".to_vec();
+    for cut in [1usize, 6, 7, 8, 9, 15, 16, 17, 21] {
+        v.push(Key::B(base[..cut].to_vec()));
+    }
+    let mut z = base.clone();
+    z.push(0);
+    v.push(Key::B(z));
+    v
+}
+
+/// prelude ops + their filler keys (appended to the pool)
+fn prelude_ops(p: Prelude, kt: Kt, keys: &mut Vec<Key>) -> Vec<Op> {
+    let mut ops = Vec::new();
+    let mut filler = |keys: &mut Vec<Key>, i: u32, len: u32| -> u32 {
+        let k = match kt {
+            Kt::Bytes => Key::P { len, seed: 900_000 + i },
+            Kt::String => Key::S { len, seed: 900_000 + i },
+            Kt::U64 | Kt::I64 => Key::B((0xF1F1_0000_0000_0000u64 + i as u64 * 0x9E37_79B9).to_le_bytes().to_vec()),
+            Kt::Vu64 => Key::B(vu64_encode(0x71F1_0000_0000_0000u64 + i as u64 * 0x9E37_79B9)),
+        };
+        keys.push(k);
+        (keys.len() - 1) as u32
+    };
+    match p {
+        Prelude::None => {}
+        Prelude::Inflate { val_bytes, key_bytes } => {
+            let mut i = 0u32;
+            let mut left = val_bytes;
+            while left > 0 {
+                let l = left.min(16 * 1024 * 1024 - 4096);
+                let k = filler(keys, i, 12);
+                ops.push(Op::Put { k, v: Val::P { len: l as u32, seed: i } });
+                left -= l;
+                i += 1;
+            }
+            if matches!(kt, Kt::Bytes | Kt::String) {
+                let mut left = key_bytes;
+                while left > 0 {
+                    let l = left.min(65000);
+                    let k = filler(keys, i, l.max(20) as u32);
+                    ops.push(Op::Put { k, v: Val::P { len: 3, seed: i } });
+                    left -= l.min(left);
+                    i += 1;
+                }
+            }
+        }
+        Prelude::ManyEntries(n) => {
+            for i in 0..n {
+                                let k = filler(keys, i, 9);
+                ops.push(Op::Put { k, v: Val::P { len: (i % 40) as u32, seed: i } });
+            }
+        }
+    }
+    ops
+}
+
+/// rarely reached regions shared by several properties: phased workloads, keys with particular
+/// byte patterns, files beyond 2 MiB (the offset fields grow from 3 to 4 bytes)
+pub fn rare_regions(c: &mut HistCfg, index: u64) {
+    c.phases = index % 10 == 4;
+    c.special_keys = index % 8 == 3;
+    if index % 50 == 21 {
+        c.prelude = Prelude::Inflate { val_bytes: 2_200_000, key_bytes: 0 };
+    } else if index % 200 == 33 {
+        c.kts = vec![Kt::Bytes, Kt::String];
+        c.prelude = Prelude::Inflate { val_bytes: 0, key_bytes: 2_200_000 };
+    }
+}
+
 pub fn history_strategy(cfg: HistCfg) -> BoxedStrategy<History> {
     let kts = cfg.kts.clone();
     let cfg2 = cfg.clone();
@@ -623,6 +781,10 @@ pub fn history_strategy(cfg: HistCfg) -> BoxedStrategy<History> {
     )
         .prop_flat_map(move |(kt, params, tdraw, tmode)| {
             let cfg = cfg2.clone();
+            let mut params = params;
+            if cfg.default_table {
+                params.buckets = Buckets::Default;
+            }
             let keys = keys_strategy(kt, cfg.key, cfg.n_keys.clone());
             let cfg3 = cfg.clone();
             keys.prop_flat_map(move |keys| {
@@ -640,9 +802,42 @@ pub fn history_strategy(cfg: HistCfg) -> BoxedStrategy<History> {
                 } else {
                     keys
                 };
+                let mut keys = keys;
+                if cfg3.special_keys {
+                    keys.extend(special_key_set(kt));
+                    keys = dedup_keys(keys);
+                }
                 let nk = keys.len();
                 let obs = cfg3.obs.clone();
-                ops_strategy(&cfg3.ops, nk, params).prop_map(move |ops| {
+                let prelude = cfg3.prelude;
+                let ops_st: BoxedStrategy<Vec<Op>> = if cfg3.phases {
+                    // insert-heavy, delete-heavy, mixed
+                    let mut a = cfg3.ops.clone();
+                    a.w.put = a.w.put * 3;
+                    a.w.del = a.w.del / 4;
+                    let mut b = cfg3.ops.clone();
+                    b.w.put = b.w.put / 4;
+                    b.w.del = b.w.del * 3;
+                    (
+                        ops_strategy(&a, nk, params),
+                        ops_strategy(&b, nk, params),
+                        ops_strategy(&cfg3.ops, nk, params),
+                    )
+                        .prop_map(|(x, y, z)| {
+                            let mut v = x;
+                            v.extend(y);
+                            v.extend(z);
+                            v
+                        })
+                        .boxed()
+                } else {
+                    ops_strategy(&cfg3.ops, nk, params)
+                };
+                ops_st.prop_map(move |ops| {
+                    let mut keys = keys.clone();
+                    let mut all = prelude_ops(prelude, kt, &mut keys);
+                    all.extend(ops);
+                    let ops = all;
                     let (kb, vb) = size_bounds(&keys, &ops);
                     let (p, mut ex) = sanitize_params(params, kb, vb);
                     let ops: Vec<Op> = ops
